@@ -214,6 +214,10 @@ func IdealHistory(c *Ctx, tw *TunWorld, p *TunPlan, nData int, dataSize func() i
 		PTunnelAuth("client-" + p.Name),
 		PChannel(p.AllowedHost, HostAllowed),
 	}
+	if tw.MC.ServerCaps == 3 {
+		// both mechanisms enabled: the client may offer both or either one
+		h[0] = PHandshake([]uint16{3, 3, 1, 2}[c.T.Choose(4)], 1, 0)
+	}
 	if !tw.MC.TokenAuth {
 		h[1] = PTunnelCreateNoCookie()
 	}
